@@ -1,5 +1,6 @@
 /- Line protocol: one JSON case per input line, one JSON result per output line. -/
 import Driver.Pure
+import Driver.MachineIO
 
 open Lean Driver
 
@@ -10,7 +11,10 @@ def handle (line : String) : String :=
     match j.getObjVal? "op" >>= Json.getStr? with
     | .error e => (Json.mkObj [("fatal", s!"op: {e}")]).compress
     | .ok op =>
-      match pureOp op j with
+      let r := match pureOp op j with
+        | some r => some r
+        | none => if op = "machine" then some (opMachine j) else none
+      match r with
       | some (.ok r) => r.compress
       | some (.error e) => (Json.mkObj [("fatal", e)]).compress
       | none => (Json.mkObj [("fatal", s!"unknown op {op}")]).compress
